@@ -14,7 +14,7 @@ import (
 
 func c08N(tier string) int {
 	if tier == "thorough" {
-		return 200000
+		return 1000000
 	}
 	return 12000
 }
